@@ -38,6 +38,7 @@ type Violation struct {
 	Trace     []string
 	Kind      string // "assert", "panic", "deadlock"
 	Chooses   []int  // the free decisions only (schedule, harness choose): replay vector
+	HarnessChooses []int // harness-level choose() picks only (native replay)
 }
 
 type PathResult struct {
@@ -90,6 +91,7 @@ type Machine struct {
 	wantSample   bool
 	spec         int // >0 while speculatively executing a pure region
 	noIfConv     bool
+	harnessChoose bool // the decision being taken is a harness-level choose()
 	frozenSched  bool // harness asked for one deterministic schedule from here on
 	merges       int
 
@@ -193,7 +195,7 @@ func (m *Machine) decide(n int, feas func(i int) bool) int {
 	if pos < len(m.prefix) {
 		pick := m.prefix[pos]
 		m.taken = append(m.taken, pick)
-		m.kinds = append(m.kinds, 'c')
+		m.kinds = append(m.kinds, m.chooseKind())
 		return pick
 	}
 	first := -1
@@ -213,7 +215,7 @@ func (m *Machine) decide(n int, feas func(i int) bool) int {
 		return -1
 	}
 	m.taken = append(m.taken, first)
-	m.kinds = append(m.kinds, 'c')
+	m.kinds = append(m.kinds, m.chooseKind())
 	return first
 }
 
@@ -287,6 +289,13 @@ func (m *Machine) branch(c *Term) bool {
 	panic(pathStop{kind: "assume", why: "infeasible path condition"})
 }
 
+func (m *Machine) chooseKind() byte {
+	if m.harnessChoose {
+		return 'h'
+	}
+	return 'c'
+}
+
 // choose picks a value in [0,n) — a free decision (scheduling, harness choice).
 func (m *Machine) choose(what string, n int) int {
 	if n <= 1 {
@@ -300,11 +309,11 @@ func (m *Machine) choose(what string, n int) int {
 		pos := len(m.taken)
 		if pos < len(m.prefix) {
 			m.taken = append(m.taken, m.prefix[pos])
-			m.kinds = append(m.kinds, 'c')
+			m.kinds = append(m.kinds, m.chooseKind())
 			return m.prefix[pos]
 		}
 		m.taken = append(m.taken, 0)
-		m.kinds = append(m.kinds, 'c')
+		m.kinds = append(m.kinds, m.chooseKind())
 		return 0
 	}
 	return m.decide(n, func(int) bool { return true })
@@ -381,8 +390,11 @@ func (m *Machine) recordViolation(kind, label, pos string, model map[string]uint
 	v := &Violation{Kind: kind, Label: label, Pos: pos, Model: model,
 		Decisions: append([]int(nil), m.taken...), Trace: append([]string(nil), m.trace...)}
 	for i, k := range m.kinds {
-		if k == 'c' {
+		if k == 'c' || k == 'h' {
 			v.Chooses = append(v.Chooses, m.taken[i])
+		}
+		if k == 'h' {
+			v.HarnessChooses = append(v.HarnessChooses, m.taken[i])
 		}
 	}
 	for _, n := range m.nondets {
